@@ -66,6 +66,9 @@ def set_values(tier):
         st.lists(st.tuples(h, h).map(list), min_size=1, max_size=4).map(lambda kv: ["dict", kv]),
         st.lists(st.lists(h, min_size=2, max_size=4).map(lambda xs: ["set", xs]), min_size=1, max_size=3).map(
             lambda xs: ["list", xs]),
+        # a list subclass holding sets (its elements must be written like those of a list)
+        st.lists(st.lists(strs, min_size=2, max_size=5).map(lambda xs: ["set", xs]), min_size=1, max_size=3).map(
+            lambda xs: ["mylist", xs]),
         st.lists(st.lists(strs, min_size=2, max_size=5).map(lambda xs: ["frozenset", xs]), min_size=2,
                  max_size=4).map(lambda xs: ["set", xs]),
     )
@@ -96,6 +99,8 @@ def module_for(case, variant):
             return "dict([" + ", ".join(f"({r(a)}, {r(b)})" for a, b in x[1]) + "])"
         if k in ("list", "tuple"):
             return f"{k}([" + ", ".join(r(i) for i in x[1]) + "])"
+        if k == "mylist":
+            return "MyList([" + ", ".join(r(i) for i in x[1]) + "])"
         if k == "call":
             return f"{x[1]}(**dict([" + ", ".join(f"({n!r}, {r(v)})" for n, v in x[2]) + "]))"
         return gv.render(x)
